@@ -53,7 +53,43 @@ def audit(pid: str, jobs: int = 16) -> Dict[str, Any]:
         if r["status"] not in ("ok", "WRONG-RULE"):
             out["problems"].append(f"{r['id']}: {r['status']} {r.get('detail', '')[:160]}")
     out.update(_seeded(pid, jobs))
+    out.update(_benign(pid, jobs))
     return out
+
+
+def _benign(pid: str, jobs: int) -> Dict[str, Any]:
+    """The behaviour-preserving refactorings kept for this property (benign/<ID>_r*/, written by fresh sub-agents who verified identical report contents):
+    each is applied to a scratch copy of the current tree; the property's check must not report a violation (exit 0, or exit 2 = not decided for this shape)."""
+    import shutil
+    import subprocess
+    import tempfile
+
+    base = repo_root()
+    dirs = sorted(d for d in (VERIF / "benign").glob(f"{pid}_r*") if (d / "patch.diff").exists())
+
+    def one(d: Path) -> str:
+        root = Path(tempfile.mkdtemp(prefix="rp2-verif-benign-"))
+        try:
+            shutil.copytree(base / "src", root / "src")
+            if (base / "setup.cfg").exists():
+                shutil.copy(base / "setup.cfg", root / "setup.cfg")
+            if subprocess.run(["patch", "-p1", "-s", "-i", str(d / "patch.diff")], cwd=root, capture_output=True).returncode != 0:
+                return "skipped"
+            env = dict(os.environ, VERIF_REPO=str(root), VERIF_EVIDENCE_DIR=str(root / "evidence"))
+            rc = subprocess.run([str(VERIF / "check"), pid, "--tier", "quick"], capture_output=True, text=True, env=env, timeout=600).returncode
+            return {0: "silent", 2: "not-decided"}.get(rc, "ALARM")
+        finally:
+            shutil.rmtree(root, ignore_errors=True)
+
+    with ThreadPoolExecutor(max_workers=max(1, min(jobs, os.cpu_count() or 1))) as ex:
+        res = list(ex.map(one, dirs))
+    return {
+        "benign_refactorings": len(dirs),
+        "benign_silent": res.count("silent"),
+        "benign_not_decided": res.count("not-decided"),
+        "benign_skipped": res.count("skipped"),
+        "benign_alarms": [d.name for d, r in zip(dirs, res) if r == "ALARM"],
+    }
 
 
 def _seeded(pid: str, jobs: int) -> Dict[str, Any]:
